@@ -11,6 +11,7 @@ from harness.common import Check, pool_map, RATE_UNIT
 from harness.netepi import pair_list
 
 INF = 1000000
+SETTLE_CAP = 120      # scenarios per (simulator, size, p) decided with the real random source when the scripted one cannot follow
 _G = {}
 
 
@@ -208,6 +209,16 @@ def main():
             for t in tasks:
                 # half of the scenarios start from a graph object that was simulated on before with another structure
                 t["primed"] = (sum(t["w"]) + t["st0"].count("I") + (1 if t["full"] else 0)) % 2 == 0
+            # a simulator the scripted source cannot follow is decided statistically (discrete_b1.settle_law), which costs
+            # seconds per scenario: then a deterministic sample of its scenarios is judged instead of all of them
+            for sim in sims:
+                mine = [t for t in tasks if t["sim"] == sim and "S" in t["st0"] and sum(t["w"]) > 0]
+                if mine and pool_map(discrete_b1.run_scenario, [dict(mine[len(mine) // 2], probe=True, primed=False)])[0].get("unmodelled"):
+                    keep = set(id(t) for t in mine[::max(1, len(mine) // SETTLE_CAP)][:SETTLE_CAP])
+                    dropped = len([t for t in tasks if t["sim"] == sim]) - len(keep)
+                    tasks = [t for t in tasks if t["sim"] != sim or id(t) in keep]
+                    chk.note("%s (N=%d, p=%d/%d): not a finite decision tree; %d scenarios are decided statistically, %d further scenarios of this family are not judged in this run"
+                             % (sim, n, pa, pb, len(keep), dropped))
             done = common.pool_run(discrete_b1.run_scenario, tasks, lambda r: bool(r["problems"]))
             for t, r in done:
                 chk.cov["evaluations"] += r["leaves"]
